@@ -10,6 +10,7 @@
 From Coq Require Import ZArith List Bool Lia Sorting.Sorted Sorting.Permutation.
 Import ListNotations.
 Require Import Verif.lib.PyLite Verif.gen.LogBufGen Verif.lib.LogBuf Verif.lib.LogBufProofs.
+Require Import Verif.lib.LogDisk Verif.lib.LogDiskProofs.
 Require Import Verif.gen.LogJsonGen Verif.lib.LogJson Verif.lib.LogJsonProofs Verif.lib.LogFileProofs Verif.lib.LogOrderProofs.
 Require Import Verif.lib.LogFmt Verif.lib.LogFmtProofs Verif.lib.LogReent Verif.lib.LogReentProofs.
 Local Open Scope Z_scope.
@@ -475,3 +476,50 @@ Theorem C18_reentrant_numbers_increase : forall c seq, all_auto c = true ->
   StronglySorted Z.lt rets /\ Forall (fun n => seq < n <= seq') rets /\ ret = seq + 1 /\ hd 0 rets = ret.
 Proof. exact reentrant_numbers_increase. Qed.
 Print Assumptions C18_reentrant_numbers_increase.
+
+(* ===================================================================== round 7: on disk when msg() returns *)
+(* "an incident file contains its triggering event and everything that was buffered" -- already at the moment the
+   triggering log.msg() returns (the qualifier runs synchronously in add_event so that log.msg('abandon ship', level=BAD)
+   followed by the death of the process leaves a report): incident_declared does not raise (for the exact guard nohost,
+   see C18_incident_lost_when_sort_raises for the other side), and what a second reader finds of the uncompressed file
+   (lib/LogDisk.v: what was written before the last flush, the order of writes and flushes TRANSLATED from
+   incident_declared) is the magic line, the header with the trigger and every buffered event, in the order of
+   C18_incident_complete; for a trailing reporter these are exactly the lines it holds and later publishes.  Both
+   reporters.  Trailing events are not claimed: trailing_event does not flush (they reach the disk when the reporter
+   finishes, C18_incident_trailing).  Modelled, not verified: a flush hands the bytes to the operating system (death of
+   the process, not of the machine). *)
+Theorem C18_incident_on_disk_at_return : forall c b i trig, nohost b ->
+  snd (incident_declared c b i trig) = false /\
+  on_disk_at_return b trig = full_report trig (sort_by_num (all_buffered b)) /\
+  (forall x, In x (all_buffered b) -> In (LEvent x) (on_disk_at_return b trig)) /\
+  In (LHeader trig) (on_disk_at_return b trig) /\
+  (c_trailing c = true -> exists r, i_rep (fst (incident_declared c b i trig)) = Some r /\
+                                    on_disk_at_return b trig = full_report (r_trigger r) (r_lines r)).
+Proof. exact incident_on_disk_at_return. Qed.
+Print Assumptions C18_incident_on_disk_at_return.
+
+(* non-vacuity: a snapshot of two events, trigger included, under the translated order *)
+Example ex_on_disk_at_return :
+  f1_durable (f1_run incident_f1_ops 9 [4; 9]) = [LMagic; LHeader 9; LEvent 4; LEvent 9].
+Proof. reflexivity. Qed.
+
+(* whatever the order of writes and flushes: the disk holds a prefix of what was written; an order that ends with a
+   flush leaves everything on disk *)
+Theorem C18_disk_is_prefix_of_written : forall (A : Type) ops (trig : A) snap,
+  exists rest, f1_written (f1_run ops trig snap) = f1_durable (f1_run ops trig snap) ++ rest.
+Proof. exact f1_durable_prefix. Qed.
+Print Assumptions C18_disk_is_prefix_of_written.
+
+Theorem C18_flush_last_complete : forall (A : Type) ops (trig : A) snap,
+  f1_durable (f1_run (ops ++ [F1Flush]) trig snap) = f1_written (f1_run (ops ++ [F1Flush]) trig snap).
+Proof. exact f1_flush_last. Qed.
+Print Assumptions C18_flush_last_complete.
+
+(* the other side (seeded change C18-r7s2: the flush moved in front of the loop that copies the history): header on disk,
+   the whole snapshot -- the triggering event with it -- not; without any flush nothing is guaranteed.  Fixed oracle
+   witnesses: harness/c18.py durable_histories, signature oracle/incident-not-on-disk-at-return. *)
+Theorem C18_early_flush_loses_snapshot : forall (A : Type) (trig : A) snap,
+  f1_durable (f1_run [F1Magic; F1Header; F1Flush; F1Snapshot] trig snap) = [LMagic; LHeader trig] /\
+  f1_written (f1_run [F1Magic; F1Header; F1Flush; F1Snapshot] trig snap) = full_report trig snap.
+Proof. exact f1_early_flush_loses_snapshot. Qed.
+Print Assumptions C18_early_flush_loses_snapshot.
